@@ -61,12 +61,13 @@ def declare(kinds, doms, how="let", order=None):
 
 
 def build_query(kinds, doms, cond, sel, *, form="set_of", how="let", order=None, quant="an", register=True,
-                split_top_and=False):
+                split_top_and=False, xs=None):
     """Returns (query, xs).  form: 'entity' (single selected variable) | 'set_of'.
     split_top_and: pass the operands of a top-level conjunction as several arguments to entity()/set_of()."""
     from entity_query_language import symbolic_mode, an, a, the, entity, set_of
     with symbolic_mode():
-        xs = declare(kinds, doms, how, order)
+        if xs is None:      # (given: another query over variables that were declared before, for an earlier query)
+            xs = declare(kinds, doms, how, order)
         if cond is None:
             conds = []
         elif split_top_and and cond[0] in ("and", "&"):
